@@ -479,11 +479,43 @@ def lateCyclesBy (rank : Nat → Nat) (h : Heap) : Bool :=
 /-- no class has a `__setgluestate_callback__` field -/
 def noCb (h : Heap) : Bool := h.all fun ob => ob.fields.all fun f => f.phase != .cb
 
-/-- One relaxation step of "largest number of early edges on a path below `o`". -/
+/-- a class with a generator loader never gets its callback registered (`hasattr` is tested on the
+generator object): no class has both late and callback fields -/
+def noGenCb (h : Heap) : Bool :=
+  h.all fun ob => !(ob.fields.any (fun f => f.phase == .late) && ob.fields.any (fun f => f.phase == .cb))
+
+/-- `main`'s loader is a plain function (glue: `DataCollection`, `Application`) -/
+def mainPlain (h : Heap) (main : Nat) : Bool :=
+  match h[main]? with
+  | some ob => ob.fields.all fun f => f.phase != .late
+  | none => true
+
+/-- early edges strictly decrease the rank, late edges do not increase it, callback edges are free -/
+def cyclesBy (rank : Nat → Nat) (h : Heap) : Bool :=
+  (List.range h.length).all fun o =>
+    match h[o]? with
+    | none => true
+    | some ob => ob.fields.all fun f =>
+      match f.val.target, f.phase with
+      | some p, .early => decide (rank p < rank o)
+      | some p, .late => decide (rank p ≤ rank o)
+      | _, _ => true
+
+/-- every object hangs below `main` through non-callback references (`dist` decreases towards `main`) -/
+def coveredBy (dist : Nat → Nat) (h : Heap) (main : Nat) : Bool :=
+  (List.range h.length).all fun o =>
+    o == main ||
+      (List.range h.length).any fun q =>
+        match h[q]? with
+        | none => false
+        | some obq => decide (dist q < dist o) &&
+            obq.fields.any fun f => f.phase != .cb && f.val == .ref o
+
+/-- One relaxation step of "largest number of early edges on a path below `o`" (callback edges ignored). -/
 def relaxRanks (h : Heap) (r : List Nat) : List Nat :=
   h.map fun ob => (ob.fields.map fun f =>
     match f.val.target with
-    | some p => r.getD p 0 + (if f.phase == .early then 1 else 0)
+    | some p => if f.phase == .cb then 0 else r.getD p 0 + (if f.phase == .early then 1 else 0)
     | none => 0).foldl max 0
 
 def iterRanks (h : Heap) : Nat → List Nat
@@ -493,6 +525,23 @@ def iterRanks (h : Heap) : Nat → List Nat
 /-- The driver's candidate rank for graphs with late-edge cycles; `lateCyclesBy (candidateRank h) h`
 then *checks* that it is one. -/
 def candidateRank (h : Heap) : Nat → Nat := fun o => (iterRanks h (h.length + 1)).getD o 0
+
+/-- One relaxation step of the breadth-first distance from `main` along non-callback references. -/
+def relaxDist (h : Heap) (main : Nat) (d : List Nat) : List Nat :=
+  (List.range h.length).map fun o =>
+    if o == main then 0 else
+      ((List.range h.length).map fun q =>
+        match h[q]? with
+        | some obq => if obq.fields.any (fun f => f.phase != .cb && f.val == .ref o) then d.getD q (h.length + 1) + 1
+                      else h.length + 1
+        | none => h.length + 1).foldl min (d.getD o (h.length + 1))
+
+def iterDist (h : Heap) (main : Nat) : Nat → List Nat
+  | 0 => (List.range h.length).map fun o => if o == main then 0 else h.length + 1
+  | k + 1 => relaxDist h main (iterDist h main k)
+
+/-- The driver's candidate distance; `coveredBy (candidateDist h main) h main` checks it. -/
+def candidateDist (h : Heap) (main : Nat) : Nat → Nat := fun o => (iterDist h main (h.length + 1)).getD o (h.length + 1)
 
 /-! ## Saver / loader dispatch over a class table -/
 
